@@ -39,8 +39,12 @@ def correspondence(run):
             run.case(("md", text), True, kind="rejected:" + type(mr).__name__)
             continue
         k = md_common.gen_scale(run.rng)
+        try:
+            rendered = mr.render(k)
+        except Exception as e:  # noqa
+            rendered = "render raised %s: %s" % (type(e).__name__, str(e)[:100])
         reqs.append(sexp.tag("mdrender", md_common.doc_sexp(mr), sexp.num(k)))
-        meta.append(("render", text, mr.render(k), k))
+        meta.append(("render", text, rendered, k))
         kinds = []
         for e in md_common.block_events(events):
             if e[0] == "other-fence":
@@ -110,7 +114,11 @@ def check_doc(doc, seeds=(1, 2)):
             out.append(("C13:recipes-differ-from-direct-compilation", "groups %r" % ([len(g) for g in mr.recipes],)))
     # 2. no placeholder residue, independent of the RNG, at several scales
     for k in (1, 2, Fraction(3, 2)):
-        r1 = mr.render(k)
+        try:
+            r1 = mr.render(k)
+        except Exception as e:  # noqa
+            out.append(("C13:render-raises:%s" % type(e).__name__, "render(%r): %s" % (k, str(e)[:200])))
+            return out
         if gen_md.PLACEHOLDER.search(r1):
             out.append(("C13:placeholder-residue", "scale %r: %r" % (k, gen_md.PLACEHOLDER.search(r1).group(0))))
         pyrandom.seed(seeds[1])
